@@ -78,6 +78,7 @@ type deadlineProbe struct {
 }
 
 func checkC09(e *core.Env) {
+	curEnv = e
 	e.SetRule("client side: virtual-deadline contexts with remaining time from <1ms to 300 years -> GRPC-Timeout captured by a recording RoundTripper, bounds from instants taken before the call and at capture; server side: header strings (6 units x {0,1,9,10,99999999,random 1-8 digits, 9-20 digits, leading zeros} + malformed) through ServeHTTP for unary and stream methods, handler's ctx.Deadline() bounded by instants before ServeHTTP and at handler entry; end-to-end over loopback with real deadlines; all bounds one-sided; distinct = (phase, unit, magnitude class)")
 	e.Assume("for values whose exact duration exceeds int64 nanoseconds both a saturated far-future deadline and no deadline at all count as saturation; '+'-signed values are only required not to crash")
 	svc := &Service{}
@@ -85,7 +86,7 @@ func checkC09(e *core.Env) {
 	srv.RegisterService(&ScriptedDesc, svc)
 
 	// ---- client encoding ----
-	e.Cases("client", e.N(400, 4000), func(i int, r *rand.Rand) {
+	e.Cases("client", e.N(1500, 30000), func(i int, r *rand.Rand) {
 		var rem time.Duration
 		switch r.Intn(8) {
 		case 0:
@@ -250,7 +251,7 @@ func checkC09(e *core.Env) {
 			}
 		}
 	}
-	e.Cases("server-random", e.N(1500, 15000), func(i int, r *rand.Rand) {
+	e.Cases("server-random", e.N(5000, 150000), func(i int, r *rand.Rand) {
 		var hv string
 		switch r.Intn(10) {
 		case 0, 1, 2, 3, 4: // 1-8 digits
@@ -287,7 +288,7 @@ func checkC09(e *core.Env) {
 	// ---- end to end over loopback with real deadlines ----
 	c := NewHTTPServer(&Service{}, carrierOpt{})
 	defer c.Close()
-	e.Cases("e2e", e.N(120, 1200), func(i int, r *rand.Rand) {
+	e.Cases("e2e", e.N(300, 4000), func(i int, r *rand.Rand) {
 		rem := time.Duration(50+r.Intn(20000)) * time.Millisecond
 		if r.Intn(5) == 0 {
 			rem = time.Duration(r.Int63n(int64(1000 * time.Hour)))
